@@ -171,6 +171,75 @@ def py_once(ctx: core.Ctx, py: ast.Module, F_: str):
                line=execs[0].lineno if execs else fn.lineno)
 
 
+REWRITE_FUNCS = {"powdenest", "powsimp", "expand", "expand_trig", "expand_log", "expand_power_base", "expand_power_exp", "expand_mul", "expand_multinomial",
+                 "expand_complex", "expand_func", "factor", "factor_terms", "cancel", "apart", "together", "collect", "rcollect", "radsimp", "ratsimp", "trigsimp",
+                 "nsimplify", "posify", "logcombine", "sqrtdenest", "combsimp", "gammasimp", "besselsimp", "hypersimp", "refine", "signsimp", "separatevars",
+                 "N", "series", "limit", "piecewise_fold", "fraction", "numer", "denom", "nfloat", "exptrigsimp", "fu", "TR8", "horner", "evalf", "simplify_logic",
+                 "sympify", "parse_expr", "S", "unpolarify", "polarify", "real_root", "cbrt_denest", "rad_rationalize", "rationalize", "bottom_up", "use"}
+
+
+def py_no_rewrite(ctx, py, F):
+    """PY-NO-REWRITE (shared by C01 / C03 / C04 / C05): what is compiled is the user's expression (or its exact derivative): python.py applies no
+    sympy rewriting to it outside the CSE gate."""
+    ctx.rule("PY-NO-REWRITE", "the Python back-end passes the user's expressions to cse/simplify/lambdify unrewritten (no subs / xreplace / rewrite / symbol re-creation)")
+    rewrites = []
+    for c in ast.walk(py):
+        if isinstance(c, ast.Call) and isinstance(c.func, ast.Attribute) and c.func.attr in ("subs", "xreplace", "replace", "rewrite", "doit", "expand", "evalf") \
+                and not (isinstance(c.func.value, ast.Constant)) and "str" not in ast.unparse(c.func.value)[:4]:
+            if c.func.attr == "replace" and (not c.args or isinstance(c.args[0], ast.Constant)):
+                continue        # str.replace
+            rewrites.append(c)
+    # function-style rewriters imported from sympy (powdenest(e, polar=True), expand(e), cancel(e), nsimplify(e), posify(e), ...): simplify and cse
+    # are the two the CSE flag allows (rule TMP-4 holds them to that gate)
+    from_sympy = {}
+    for n in ast.walk(py):
+        if isinstance(n, ast.ImportFrom) and (n.module or "").split(".")[0] == "sympy":
+            for a_ in n.names:
+                from_sympy[a_.asname or a_.name] = a_.name
+    for c in ast.walk(py):
+        if not isinstance(c, ast.Call) or not c.args:
+            continue
+        f = c.func
+        nm = from_sympy.get(f.id) if isinstance(f, ast.Name) else f.attr if isinstance(f, ast.Attribute) and isinstance(f.value, ast.Name) and f.value.id in ("sympy", "sp", "sym") else None
+        if nm in REWRITE_FUNCS:
+            rewrites.append(c)
+    pos = ast.parse("e = symbolic_model.state_model[a].subs(symbolic_model.dt, Symbol('dt', positive=True))")
+    fired = any(isinstance(c, ast.Call) and isinstance(c.func, ast.Attribute) and c.func.attr == "subs" for c in ast.walk(pos))
+    if not fired:
+        ctx.error("PY-NO-REWRITE: built-in positive example not recognised")
+    ctx.floors["PY-NO-REWRITE"] = {"count": 1, "floor": 1, "what": "built-in positive example recognised; expected count in python.py is zero"}
+    ctx.oblige("PY-NO-REWRITE", F, f"{len(rewrites)} expression-rewriting call(s) in python.py", not rewrites, file=F, func="<module>",
+               construct="rewrites:" + ";".join(sorted(ast.unparse(c.func)[-40:] for c in rewrites)),
+               msg="the Python back-end rewrites the user's expressions before compiling them: "
+                   + "; ".join(f"`{ast.unparse(c)[:70]}` (line {c.lineno})" for c in rewrites)
+                   + " -- e.g. substituting a symbol that carries assumptions changes what Abs / sqrt / sign evaluate to",
+               line=rewrites[0].lineno if rewrites else None)
+
+
+def py_eval_pure(ctx: core.Ctx, py: ast.Module, F_: str):
+    """EVAL-PURE: evaluating the compiled model writes nothing into the model object -- the returned State owns its storage.  A result built in a
+    buffer kept on `self` (allocated once, filled per call, handed out through from_data) is the same array for every call: the State returned
+    earlier changes when the model is evaluated again."""
+    from .. import effects
+    ctx.rule("EVAL-PURE", "Model.model / SensorModel.model write no instance state (the returned value does not alias a buffer kept on self)")
+    n = 0
+    for cname in ("Model", "SensorModel"):
+        cls = core.find_class(py, cname)
+        fn = core.find_func(cls, "model") if cls is not None else None
+        if fn is None:
+            continue
+        n += 1
+        ws = [w for w in effects.writes(fn) if w.target.split("[")[0].split(".")[0] == "self"]
+        aliased = [ast.unparse(c)[:60] for c in ast.walk(fn) if isinstance(c, ast.Call) and isinstance(c.func, ast.Attribute) and c.func.attr == "from_data"
+                   and c.args and isinstance(c.args[0], ast.Attribute) and isinstance(c.args[0].value, ast.Name) and c.args[0].value.id == "self"]
+        ctx.oblige("EVAL-PURE", f"{F_}:{cname}.model", f"{len(ws)} write(s) to self, {len(aliased)} result(s) aliasing an attribute", not ws and not aliased, file=F_,
+                   func=f"{cname}.model", construct="eval writes:" + ";".join(sorted(w.target for w in ws)) + ";".join(aliased),
+                   msg=f"{cname}.model writes instance state ({'; '.join(f'{w.kind} {w.target} (line {w.line})' for w in ws)}"
+                       f"{'; returns ' + ', '.join(aliased) if aliased else ''}): the value it returned for an earlier call is overwritten by the next one",
+                   line=ws[0].line if ws else fn.lineno)
+    ctx.floor("EVAL-PURE", n, 2, "model evaluation methods examined")
+
+
 def py_float_buffers(ctx: core.Ctx, py: ast.Module, F_: str):
     """PY-DTYPE: arrays that receive computed values are allocated as float arrays of a given shape -- never as `*_like` / copies of an input,
     whose dtype (an integer array handed to from_data) would silently truncate every stored result.  Shared with C19."""
@@ -251,26 +320,9 @@ def run(ctx: core.Ctx) -> int:
     from . import c15 as _c15
     ctx.rule("PY-PURE", "python.py / common.py keep no module-level mutable state written by functions")
     _c15.gen_pure(ctx, {"python": F, "common": "py/formak/common.py"}, rule="PY-PURE", floor=40)
-    ctx.rule("PY-NO-REWRITE", "the Python back-end passes the user's expressions to cse/simplify/lambdify unrewritten (no subs / xreplace / rewrite / symbol re-creation)")
-    rewrites = []
-    for c in ast.walk(py):
-        if isinstance(c, ast.Call) and isinstance(c.func, ast.Attribute) and c.func.attr in ("subs", "xreplace", "replace", "rewrite", "doit", "expand", "evalf") \
-                and not (isinstance(c.func.value, ast.Constant)) and "str" not in ast.unparse(c.func.value)[:4]:
-            if c.func.attr == "replace" and (not c.args or isinstance(c.args[0], ast.Constant)):
-                continue        # str.replace
-            rewrites.append(c)
-    pos = ast.parse("e = symbolic_model.state_model[a].subs(symbolic_model.dt, Symbol('dt', positive=True))")
-    fired = any(isinstance(c, ast.Call) and isinstance(c.func, ast.Attribute) and c.func.attr == "subs" for c in ast.walk(pos))
-    if not fired:
-        ctx.error("PY-NO-REWRITE: built-in positive example not recognised")
-    ctx.floors["PY-NO-REWRITE"] = {"count": 1, "floor": 1, "what": "built-in positive example recognised; expected count in python.py is zero"}
-    ctx.oblige("PY-NO-REWRITE", F, f"{len(rewrites)} expression-rewriting call(s) in python.py", not rewrites, file=F, func="<module>",
-               construct="rewrites:" + ";".join(sorted(ast.unparse(c.func)[-40:] for c in rewrites)),
-               msg="the Python back-end rewrites the user's expressions before compiling them: "
-                   + "; ".join(f"`{ast.unparse(c)[:70]}` (line {c.lineno})" for c in rewrites)
-                   + " -- e.g. substituting a symbol that carries assumptions changes what Abs / sqrt / sign evaluate to",
-               line=rewrites[0].lineno if rewrites else None)
+    py_no_rewrite(ctx, py, F)
     py_float_buffers(ctx, py, F)
+    py_eval_pure(ctx, py, F)
     py_once(ctx, py, F)
     late_binding(ctx, py, F)
     from . import c13 as _c13nv
